@@ -24,9 +24,15 @@ Definition comp (v d : string) (fs : fileset) : prog := (v, d, fs).
 
 Inductive run_obs := RO (compiled : bool) (toks : list string) (deptok : string) | RNoFiles.
 
+(* what an invocation asks the compiled magefile for.  Model/Cache.v's [Run] has no such field:
+   Invoke's decision does not look at it; only what the program prints depends on it *)
+Inductive cmd := CRun | CList | CHelp.
+
 Inductive case :=
 | CHist (tpl : string) (init : fileset) (dep0 ver0 : string) (ops : list op)
         (toks : list (string * string))               (* contents -> the token those contents print *)
+        (listed : list string)                        (* the contents that declare the listed target *)
+        (cmds : list cmd)                             (* the command of each Run, in order *)
         (obs_classes : list nat) (obs_runs : list run_obs)
 | CNames (sets : list (string * string * fileset)) (obs_classes : list nat)   (* (template, go version, files) *)
 | CLayout (l : layout) (obs_cache_dir obs_cwd : string).
@@ -42,27 +48,39 @@ Fixpoint tok_of (toks : list (string * string)) (c : string) : string :=
   | (c', t) :: r => if String.eqb c c' then t else tok_of r c
   end.
 
-Fixpoint run_obs_of (toks : list (string * string)) (outs : list (outcome prog)) : list run_obs :=
+Definition is_in (l : list string) (c : string) : bool := existsb (String.eqb c) l.
+
+(* target run: the tokens of all files and the imported package's; -l: the tokens of the files that
+   declare the listed target and the imported package's; -h <imported target>: the imported package's *)
+Definition printed (toks : list (string * string)) (listed : list string) (k : cmd) (fs : fileset) : list string :=
+  match k with
+  | CRun => sort_strings (map (tok_of toks) (contents fs))
+  | CList => sort_strings (map (tok_of toks) (filter (is_in listed) (contents fs)))
+  | CHelp => []
+  end.
+
+Fixpoint run_obs_of (toks : list (string * string)) (listed : list string) (cmds : list cmd)
+                    (outs : list (outcome prog)) : list run_obs :=
   match outs with
   | [] => []
-  | NoRun _ :: r => run_obs_of toks r
-  | NoFiles _ :: r => RNoFiles :: run_obs_of toks r
-  | Ran _ c (_, d, fs) :: r => RO c (sort_strings (map (tok_of toks) (contents fs))) d :: run_obs_of toks r
+  | NoRun _ :: r => run_obs_of toks listed cmds r
+  | NoFiles _ :: r => RNoFiles :: run_obs_of toks listed (tl cmds) r
+  | Ran _ c (_, d, fs) :: r => RO c (printed toks listed (hd CRun cmds) fs) d :: run_obs_of toks listed (tl cmds) r
   end.
 
 Definition model_obs (c : case) : obs :=
   match c with
-  | CHist tpl init d0 v0 ops toks _ _ =>
+  | CHist tpl init d0 v0 ops toks listed cmds _ _ =>
       let st0 := {| dir := init; dep := d0; ver := v0; cache := [] |} in
       OHist (classes (names_along enc prog comp tpl ops st0))
-            (run_obs_of toks (outcomes enc prog comp tpl ops st0))
+            (run_obs_of toks listed cmds (outcomes enc prog comp tpl ops st0))
   | CNames sets _ => ONames (classes (map (fun s => exe_name enc (fst (fst s)) (snd (fst s)) (snd s)) sets))
   | CLayout l _ _ => OLayout (show (cache_dir true l)) (show (run_cwd l))
   end.
 
 Definition given_obs (c : case) : obs :=
   match c with
-  | CHist _ _ _ _ _ _ cls runs => OHist cls runs
+  | CHist _ _ _ _ _ _ _ _ cls runs => OHist cls runs
   | CNames _ cls => ONames cls
   | CLayout _ d w => OLayout d w
   end.
